@@ -574,7 +574,7 @@ def proof_stage(rep):
 
 TRUSTED = vlib.TRUSTED_BASE_COMMON[:2] + [
     "coq/SeqModel.v as the model of Array.hpp / String.hpp / StringStream.hpp (tied to the C++ by the C14 correspondence run); coq/LedgerModel.v adds only observers (owners, live blocks, destroy_all) and does not change the step functions",
-    "coq/LedgerValueModel.v as the ownership model of Value.hpp / HArray.hpp / HashTable.hpp (hand-written from the code after D29, D40v, D42v, D43v, D52, D63; NOT extracted and not run against the C++: how many blocks an object holds is policy, the model leaves growth / compaction to flags chosen by the history; the same operation families are exercised on the real code by the 'value', 'htab' and 'nested' ledger families)",
+    "coq/LedgerValueModel.v as the ownership model of Value.hpp / HArray.hpp / HashTable.hpp (hand-written from the code after D29, D40v, D42v, D43v, D52, D63); extracted (coq/Extract_ledgervalue.v, ocaml/ledgervalue.ml) and run against the real Value<char> (cpp/drv_ledger_valuemodel.cpp) on the same histories: see value_model_correspondence",
     "coq/HtabLedgerModel.v as the ownership model of HashTable.hpp / HArray.hpp / HList.hpp storage, key and value tokens (hand-written from the code as it stands; which item a key names is abstracted to key names, capacity to a grow flag); the same operation families are exercised on the real code by the 'htab' ledger family",
     "cpp/ledger.hpp + the QENTEM_Q_TEST_H seam of Include/Memory.hpp: every Memory::Allocate / Deallocate of the library passes through it (grep: the only ::operator new / delete of Include/ are there)",
     "C++ drivers under /verif/cpp (the interpreters of the C12/C13/C14/C05/C01 checks, rebuilt with -DVERIF_LEDGER=1; cpp/drv_ledger_cache.cpp), g++ 12 with ASan/LSan/UBSan, tools/*.py generators",
@@ -723,6 +723,34 @@ def check(tier):
                        "first_mismatch": {"case": m["case"], "model_case": m.get("model_case"), "impl": m.get("impl"), "model": m.get("model")},
                        "searched_cases": hr.get("n", 0)}, no_input=True)
 
+    # correspondence of the Value-tree ownership model (coq/LedgerValueModel.v, extracted) with Value<char>:
+    # live allocations and what the pool owns after every operation (tools/props/ledgervalue.py)
+    import ledgervalue
+    vrng = random.Random(rng.randrange(1 << 30))
+    vr = ledgervalue.correspond(vrng, tier, boost)
+    vcorr = {"cases": vr.get("n", 0), "mismatches": vr.get("n_mismatch", len(vr.get("mismatches", []))), "distribution": vr.get("distribution", {}),
+             "samples": vr.get("samples", [])}
+    total += vr.get("n", 0)
+    vmodel_only = []
+    for m in vr.get("mismatches", []):
+        if "broken" in m:
+            rep.violation({"broken": [m["broken"]], "log": (m.get("log") or "")[-3000:]}, no_input=True)
+            continue
+        what = m.get("what") or ""
+        direct = ("released an unknown" in what) or ("allocations live but the pool owns" in what) or ("after destroying the pool" in what) or ("did not finish" in what) or m.get("impl", "").startswith("CRASH")
+        if direct:
+            found_input = True
+            rep.violation({"component": "ledger/ledgervalue", "family": "ledgervalue", "case": m["case"], "model_case": m.get("model_case"),
+                           "format": "<variables> <op;op;...>  (cpp/drv_ledger_valuemodel.cpp)",
+                           "observed_impl": m.get("impl"), "model": m.get("model"), "oracle": "fails: " + what, "original_case": m.get("original_case")})
+        else:
+            vmodel_only.append(m)
+    if vmodel_only and not found_input:
+        m = vmodel_only[0]
+        rep.violation({"broken": ["correspondence LedgerValueModel.vstep vs Value<char> (cpp/drv_ledger_valuemodel.cpp) differs: " + (m.get("what") or "")],
+                       "first_mismatch": {"case": m["case"], "model_case": m.get("model_case"), "impl": m.get("impl"), "model": m.get("model")},
+                       "searched_cases": vr.get("n", 0)}, no_input=True)
+
     if not found_input and not proof_ok:
         rep.violation({"broken": ["coq/Properties_C16.vo no longer builds or is not closed (ledger theorems c16_* not re-established)"],
                        "coq_log": st["log"][-3000:], "searched_cases": total}, no_input=True)
@@ -738,6 +766,7 @@ def check(tier):
         "per_family": per_family,
         "nested_model_correspondence": corr,
         "htab_model_correspondence": hcorr,
+        "value_model_correspondence": vcorr,
         "allocation_counts_are": "diagnostic only (how many blocks a container holds is policy, not contract)",
         "oracle_failures": sum(v["verdict_failures"] for v in per_family.values()),
     })
@@ -745,7 +774,8 @@ def check(tier):
         "the theorems are about (1) the block-heap model coq/SeqModel.v (Array<int>, String, StringStream; the model of the C14 theorems) with the observers of coq/LedgerModel.v (2) the ownership model of Value trees coq/LedgerValueModel.v, (3) nested Array<Node> coq/LedgerNestedModel.v and (4) the storage / key / value ownership model of the hash table coq/HtabLedgerModel.v; Array<String> elements, tag records, expression lists and the JSON / template parsers' failure paths are NOT modelled: for them C16 rests on the runtime ledger + sanitizers reported here (finite search)",
         "nested-array model: tied to the C++ by the correspondence run reported under nested_model_correspondence (contents after every step: implementation = extracted ownership model = extracted value-semantics specification; finite); that the model's contents equal the specification for ALL histories is tested, not proved; d strictly inside s (assigning / appending a container into one of its own parts) is outside the domain",
         "hash-table ownership model: tied to the C++ by the correspondence run reported under htab_model_correspondence (after every operation: live allocations = ids the model owns, tables with storage / keys / values owning a block equal the model's, no bad release, nothing live that the pool does not own; 0 live after the pool is destroyed); the model's growth flag is taken from what the C++ did (capacity changed), the copy-of-empty flag from the value type; finite",
-        "Value model: targets are value positions (variable, array element, value of an item); moving a value into one of its own members and Merge / append-of-a-value between a value and its own member or ancestor are outside the domain (no-ops in the model, skipped by the drivers); Value::Compress is the model's one-level OCompress applied at the node and then at every container child",
+        "Value model: tied to the C++ by the correspondence run reported under value_model_correspondence (after every operation: live allocations = ids the model owns; objects with storage / keys / arrays with storage / strings owning a block equal the model's split; no bad release; nothing live that the pool does not own; 0 live after every variable is destroyed); the model's flags are taken from what the C++ did (grow = the capacity of the target changed; re = the code's own condition for this level of Compress, evaluated by the driver); finite",
+        "Value model: targets are value positions (variable, array element, value of an item); moving a value into one of its own members and Merge / append-of-a-value between a value and its own member or ancestor are outside the domain (no-ops in the model, skipped by the drivers); Value::Compress is the model's one-level OCompress applied at the node and then at every container child (the driver reports the levels); `*d += *s` on two objects is OMerge; `*d = *s` with d = s is a no-op",
         "whether a destructor really runs, and use after release, are decided by the C++ runtime: covered by ASan / LSan on the generated cases, not by the theorems",
         "the ledger sees the library's allocator seam (Memory::Allocate / Deallocate); blocks adopted from or detached to the caller are allocated / released by the driver through the same seam",
         "the tree is /repo with the lifetime repairs D19, D27, D29, D40v, D50, D51, D52, D72, D80 applied (KNOWN_FINDINGS.txt)",
@@ -769,6 +799,17 @@ def replay(path):
         r = htabledger.run_cases(exe, mexe, [(int(tk[0]), int(tk[1]), ops)])[0]
         print("family: htabledger\ncase:", case, "\nimpl:", r[3], "\nmodel:", r[4], "\nverdict:", r[5] or "agree, nothing live at the end")
         return 0 if r[5] is None else 1
+    if case and fam == "ledgervalue":
+        import ledgervalue
+        exe, msg = ledgervalue.build()
+        mexe, mmsg = vlib.build_ocaml("ledgervalue")
+        if exe is None or mexe is None:
+            print("driver or extracted model does not build:", (msg or mmsg or "")[-2000:])
+            return 1
+        n, ops = ledgervalue.parse_case(case)
+        r = ledgervalue.run_cases(exe, mexe, [(n, ops)])[0]
+        print("family: ledgervalue\ncase:", case, "\nmodel case:", r[5], "\nimpl:", r[2], "\nmodel:", r[3], "\nverdict:", r[4] or "agree, nothing live at the end")
+        return 0 if r[4] is None else 1
     if not case or fam not in DRIVERS:
         print("replay names a broken obligation, not an input:", d.get("broken"))
         return 1
